@@ -77,7 +77,87 @@ _MUTATORS = {'append', 'extend', 'insert', 'add', 'update', 'pop', 'remove', 'cl
              'discard', 'appendleft', 'extendleft', 'popleft', 'put', 'get_nowait', 'put_nowait'}
 
 
-def mutated_names(body) -> set:
+_PARAM_MUT = {}
+
+
+def _callee_keeps(n: ast.Call, arg, fi, depth=0) -> bool:
+    """The call hands `arg` to a function of the program that resolves from the caller's module and that neither changes the
+    corresponding parameter in place nor lets it escape (hands it on, stores it, returns it)."""
+    if fi is None or INLINER is None or depth > 3:
+        return False
+    prog = INLINER.ctx.prog
+    target = None
+    bound = False
+    if isinstance(n.func, ast.Name):
+        r = prog.resolve_expr(fi.module, n.func, None)
+        if r and r[0] == 'def':
+            target = r[1]
+    elif isinstance(n.func, ast.Attribute) and isinstance(n.func.value, ast.Name) and n.func.value.id in ('self', 'cls') and fi.cls is not None:
+        target = prog.find_method(fi.cls, n.func.attr)
+        bound = target is not None and target.kind in ('method', 'classmethod')
+    if target is None or isinstance(target.node, ast.Lambda):
+        return False
+    a = target.node.args
+    if a.vararg or a.kwarg:
+        return False
+    params = [x.arg for x in a.posonlyargs + a.args][1 if bound else 0:]
+    pname = None
+    for i, x in enumerate(n.args):
+        if x is arg and i < len(params):
+            pname = params[i]
+    for k in n.keywords:
+        if k.value is arg:
+            pname = k.arg
+    if pname is None:
+        return False
+    key = (id(target.node), pname)
+    if key in _PARAM_MUT and _PARAM_MUT[key][0] is target.node:
+        return _PARAM_MUT[key][1]
+    _PARAM_MUT[key] = (target.node, False)      # recursion: assume the worst
+    keeps = True
+    for st in target.node.body:
+        for m in ast.walk(st):
+            if isinstance(m, ast.Name) and m.id == pname and isinstance(m.ctx, ast.Load):
+                keeps = keeps and _benign_use(m, st, target, depth)
+            elif isinstance(m, ast.Name) and m.id == pname:
+                keeps = False       # re-bound: keep it simple
+    _PARAM_MUT[key] = (target.node, keeps)
+    return keeps
+
+
+def _benign_use(name, stmt, target, depth) -> bool:
+    """A read of a parameter that cannot change the object or make it reachable from elsewhere: iteration, membership test,
+    len / sorted / any / all / ..., an element read, a pure method, an argument of a callee that keeps it."""
+    parent = None
+    for n in ast.walk(stmt):
+        for c in ast.iter_child_nodes(n):
+            if c is name:
+                parent = n
+    if parent is None:
+        return False
+    if isinstance(parent, (ast.For, ast.comprehension)) and parent.iter is name:
+        return True
+    if isinstance(parent, ast.Compare):
+        return True
+    if isinstance(parent, ast.Subscript) and parent.value is name and isinstance(parent.ctx, ast.Load):
+        return True
+    if isinstance(parent, (ast.BoolOp, ast.UnaryOp, ast.If, ast.While, ast.IfExp)) and (not isinstance(parent, ast.IfExp) or parent.test is name):
+        return True
+    if isinstance(parent, ast.Attribute) and parent.value is name and parent.attr not in _MUTATORS:
+        return parent.attr in ('count', 'index', 'get', 'keys', 'values', 'items', 'copy', 'startswith', 'endswith', 'join',
+                               'split', 'strip', 'lower', 'upper', 'union', 'intersection', 'difference', 'issubset', 'issuperset', 'isdisjoint')
+    if isinstance(parent, ast.Call) and isinstance(parent.func, ast.Name) and parent.func.id in (
+            'len', 'sorted', 'any', 'all', 'sum', 'min', 'max', 'list', 'tuple', 'set', 'frozenset', 'dict', 'enumerate', 'zip', 'map',
+            'filter', 'reversed', 'iter', 'str', 'repr', 'bool', 'isinstance', 'print') and name in parent.args:
+        return True
+    if isinstance(parent, ast.Call) and (name in parent.args or any(k.value is name for k in parent.keywords)):
+        return _callee_keeps(parent, name, target, depth + 1)
+    if isinstance(parent, ast.Starred):
+        return True
+    return False
+
+
+def mutated_names(body, fi=None) -> set:
     """Local names whose object is changed in place somewhere in the statements: receiver of a mutating method, base of a
     subscript / attribute store, target of an augmented assignment."""
     out = set()
@@ -93,7 +173,7 @@ def mutated_names(body) -> set:
                     or (isinstance(n.func, ast.Name) and n.func.id not in _PURE_FUNCS and not n.func.id[:1].isupper())):
                 # a container handed to a method of the own object / a plain function may be filled by it (append_row(..., row=row))
                 for a_ in list(n.args) + [k.value for k in n.keywords]:
-                    if isinstance(a_, ast.Name):
+                    if isinstance(a_, ast.Name) and not _callee_keeps(n, a_, fi):
                         out.add(a_.id)
     # an element handed out by iteration / subscription is part of the container: changing it changes the container
     changed = True
@@ -165,7 +245,7 @@ def _clobber(target, env, op):
 def sym_paths(body, limit=4000, init_env=None, fi=None, inliner=None) -> List[SymPath]:
     inl = None if inliner is False else (inliner if inliner is not None else INLINER)
     global _MUTATED
-    mutated_here = mutated_names(body)
+    mutated_here = mutated_names(body, fi)
     out = []
     for p in enumerate_paths(body, limit):
         _MUTATED = mutated_here          # (re-set per path: the helper inliner runs nested symbolic executions)
